@@ -1,0 +1,58 @@
+//go:build verif
+
+// Verification-only re-exports for /verif property C21 (build tag `verif`).
+// Add-only: nothing here changes the behaviour of the package. (Separate file because several
+// /verif properties need hooks in this package.)
+package ipam
+
+import (
+	"github.com/projectcalico/calico/libcalico-go/lib/backend/model"
+	cnet "github.com/projectcalico/calico/libcalico-go/lib/net"
+)
+
+// VerifBlock wraps the unexported allocationBlock.
+type VerifBlock struct {
+	b allocationBlock
+}
+
+// VerifNewBlock re-exports newBlock.
+func VerifNewBlock(cidr cnet.IPNet, rsvd *HostReservedAttr) *VerifBlock {
+	return &VerifBlock{b: newBlock(cidr, rsvd)}
+}
+
+// VerifWrapBlock wraps an existing backend block WITHOUT garbage collection.
+func VerifWrapBlock(b *model.AllocationBlock) *VerifBlock {
+	return &VerifBlock{b: allocationBlock{b}}
+}
+
+// Model gives access to the wrapped backend block.
+func (v *VerifBlock) Model() *model.AllocationBlock { return v.b.AllocationBlock }
+
+// AutoAssign re-exports allocationBlock.autoAssign (reserved = cidrSliceFilter, or nilAddrFilter when empty).
+func (v *VerifBlock) AutoAssign(num int, handleID *string, affinityCfg AffinityConfig, attrs map[string]string, affinityCheck bool, reserved []cnet.IPNet) ([]cnet.IPNet, error) {
+	var f addrFilter = nilAddrFilter{}
+	if len(reserved) > 0 {
+		f = cidrSliceFilter(reserved)
+	}
+	return v.b.autoAssign(num, handleID, affinityCfg, attrs, affinityCheck, f)
+}
+
+// Assign re-exports allocationBlock.assign.
+func (v *VerifBlock) Assign(affinityCheck bool, address cnet.IP, handleID *string, attrs map[string]string, affinityCfg AffinityConfig) error {
+	return v.b.assign(affinityCheck, address, handleID, attrs, affinityCfg)
+}
+
+// Release re-exports allocationBlock.release.
+func (v *VerifBlock) Release(cfg *IPAMConfig, addresses []ReleaseOptions) ([]cnet.IP, map[string]int, error) {
+	return v.b.release(cfg, addresses)
+}
+
+// ReleaseByHandle re-exports allocationBlock.releaseByHandle.
+func (v *VerifBlock) ReleaseByHandle(cfg *IPAMConfig, opts ReleaseOptions) int {
+	return v.b.releaseByHandle(cfg, opts)
+}
+
+// GarbageCollect re-exports allocationBlock.garbageCollect.
+func (v *VerifBlock) GarbageCollect(ipCooldownSeconds int) bool {
+	return v.b.garbageCollect(ipCooldownSeconds)
+}
